@@ -124,68 +124,56 @@ def check(run, prog):
     run.extra["decided_by"] = ck.how
 
 
-def _int_factor(node, name):
-    """k in  `k * name`, `name * k`, `name / k`, `name // k` ; None otherwise."""
-    if isinstance(node, ast.BinOp) and isinstance(node.op, (ast.Mult, ast.Div, ast.FloorDiv)):
-        l, r = node.left, node.right
-        if isinstance(r, ast.Constant) and isinstance(r.value, int) and name(l):
-            return r.value
-        if isinstance(l, ast.Constant) and isinstance(l.value, int) and name(r) and isinstance(node.op, ast.Mult):
-            return l.value
-    return None
-
-
 def reader_factor_agreement(ck, prog, rule):
-    """The factor relating real samples to complex samples must be one and the same (2) at the five places that use it."""
-    rb = prog.func("BasebandReader._read_baseband")
+    """The factor relating real samples to complex samples must be one and the same (2) wherever it is used: the reader's seek
+    position and read count, its sample-rate and length divisors, and the decimation of real_to_complex.  Decided by evaluating
+    the reader against the stream-reader model (not by matching source text)."""
+    from .c11 import file_model, L, FS, o, n
+    from ..values import ClassV, DictV, Hz as HZ
+    from ..spec import FR
     init = prog.func("BasebandReader.__init__")
+    rb = prog.func("BasebandReader._read_baseband")
     r2c = prog.func("real_to_complex")
-    for f in (rb, init, r2c):
+    for f in (init, rb, r2c):
         ck.run.touched(f)
-    params = [p for p, k in rb.params()]
-    off, cnt = (params[1], params[2]) if len(params) >= 3 else ("offset", "n")
-    found = {}
-
-    def branch_real(fnode):
-        for n_ in ast.walk(fnode):
-            if isinstance(n_, ast.If) and "real_baseband" in norm(n_.test):
-                return n_
-        return None
-    br = branch_real(rb.node)
-    if br is None:
-        ck.unk(rule, rb.where, "if self.real_baseband: ...", "real-sampled data has its own read branch", "branch not found")
-    else:
-        for c in ast.walk(ast.Module(body=br.body, type_ignores=[])):
-            if isinstance(c, ast.Call) and isinstance(c.func, ast.Attribute) and c.func.attr in ("seek", "read") and c.args:
-                nm = off if c.func.attr == "seek" else cnt
-                k = _int_factor(c.args[0], lambda x, nm=nm: isinstance(x, ast.Name) and x.id == nm)
-                found[c.func.attr] = k if k is not None else (1 if isinstance(c.args[0], ast.Name) else None)
-        # the non-real branch must use the plain offset / count
-        for c in ast.walk(ast.Module(body=br.orelse, type_ignores=[])):
-            if isinstance(c, ast.Call) and isinstance(c.func, ast.Attribute) and c.func.attr in ("seek", "read") and c.args:
-                plain = isinstance(c.args[0], ast.Name) and c.args[0].id == (off if c.func.attr == "seek" else cnt)
-                ck.same(rule, rb.where, f"complex/intensity branch: fh.{c.func.attr}({norm(c.args[0])})",
-                        "data that needs no Hilbert conversion is read at the plain offset / count", plain, found=norm(c))
-    bi = branch_real(init.node)
-    if bi is None:
-        ck.unk(rule, init.where, "if self.real_baseband: ...", "the constructor halves rate and length for real-sampled data", "branch not found")
-    else:
-        for c in ast.walk(ast.Module(body=bi.body, type_ignores=[])):
-            if isinstance(c, ast.BinOp) and isinstance(c.op, (ast.Div, ast.FloorDiv)) and isinstance(c.right, ast.Constant):
-                txt = norm(c.left)
-                if "sample_rate" in txt:
-                    found["rate divisor"] = c.right.value
-                elif "shape[0]" in txt:
-                    found["length divisor"] = c.right.value
-    for c in ast.walk(r2c.node):
-        if isinstance(c, ast.Call) and isinstance(c.func, ast.Name) and c.func.id == "slice" and len(c.args) == 3 \
-                and isinstance(c.args[2], ast.Constant):
-            found["decimation step"] = c.args[2].value
-    want = {"seek", "read", "rate divisor", "length divisor", "decimation step"}
-    missing = want - set(found)
-    if missing:
-        ck.unk(rule, rb.where, "factor sites", "all five uses of the real-to-complex factor are found", f"not found: {sorted(missing)}; found {found}")
+    fm, log = file_model(False, (2,), "float32")
+    ev = ck.evaluator()
+    ev.file_model = fm
+    cf = sp.Symbol("cf", real=True)
+    kw = {"signal_type": ClassV(prog.cls("BasebandSignal")), "signal_kwargs": DictV({"center_freq": Num(cf * HZ, kind="quantity")})}
+    r = ck.attempt(rule, init.where, "BasebandReader(real-sampled file)", "constructs against the stream-reader model",
+                   lambda: ev.construct(prog.cls("BasebandReader"), [StrV("file")], kw, FR()), ev=ev, allowed_guards=["ValueError"])
+    if r is None:
         return
-    ck.same(rule, rb.where, f"real-sample factor at {sorted(found.items())}",
-            "seek(k*offset), read(k*n), sample_rate/k, length//k and the decimation step use one and the same k == 2",
-            all(v == 2 for v in found.values()), found=str(found), nontrivial=True)
+    del log[:]
+    s = ck.attempt(rule, rb.where, "read(o, n) of real-sampled data", "evaluates",
+                   lambda: ev.call(prog.func("BaseReader.read"), [Num(o), Num(n)], {}, self_val=r), ev=ev, allowed_guards=["ValueError", "OutOfBoundsError"])
+    if s is None:
+        return
+    seeks = [e for e in log if e[0] == "seek"]
+    reads = [e for e in log if e[0] == "read"]
+    found = {}
+    try:
+        if seeks:
+            found["seek position / offset"] = sp.simplify(seeks[0][1].expr / o)
+        if reads:
+            found["read count / n"] = sp.simplify(reads[0][2].expr / n)
+        found["file rate / reader rate"] = sp.simplify(FS * HZ / r.attrs["_sample_rate"].expr)
+        ln = r.attrs["_shape"].items[0].expr
+        found["file length / reader length"] = sp.Integer(2) if ln == sp.floor(L / 2) else sp.simplify(L / ln)
+        d = s.attrs["_data"]
+        if isinstance(d, Num) and d.shape and reads:
+            # decimation of real_to_complex: input count (2n) over output count
+            out_len = d.shape[0]
+            k = sp.Symbol("k_pos", integer=True, positive=True)
+            found["samples in / samples out (real_to_complex)"] = sp.simplify(reads[0][2].expr.subs(n, k) / out_len.subs(n, k))
+    except Exception as e:  # noqa
+        ck.unk(rule, rb.where, "factor sites", "the five uses of the real-to-complex factor are evaluable", str(e)[:160])
+        return
+    want = {"seek position / offset", "read count / n", "file rate / reader rate", "file length / reader length", "samples in / samples out (real_to_complex)"}
+    if set(found) != want:
+        ck.unk(rule, rb.where, "factor sites", "all five uses of the real-to-complex factor are found", f"found {sorted(found)}")
+        return
+    ck.same(rule, rb.where, "real-sample factor: " + ", ".join(f"{k_} = {v}" for k_, v in sorted(found.items())),
+            "seek(k*offset), read(k*n), sample_rate/k, length//k and the decimation of real_to_complex use one and the same k == 2",
+            all(v == 2 for v in found.values()), found=str({k_: str(v) for k_, v in found.items()}), nontrivial=True)
